@@ -8,7 +8,7 @@
    "(" without being the parenthesis symbol (clause_tok admits it, the scan of the type rejects it).
    With the earlier follow_rettype (until_brace) the streams `if ( f ( ) : x ) { y ; }` and
    `g = ( f ( ) : x ) => { }` were counter-examples too; they no longer are (GD26, checked below). *)
-From Verif Require Import Base Regex Token TokEngine Headers Blocks Spec HeaderSpec LexShapes Grammar GrammarAll.
+From Verif Require Import Base Regex Token TokEngine Lex Headers Blocks Pairing Fold ScanFile Spec HeaderSpec LexShapes Grammar GrammarAll.
 
 Open Scope Z_scope.
 (* Java:  if ( f ( ) throws x ) { y ; } *)
@@ -49,12 +49,30 @@ Example old_ts_counterexamples_repaired :
   lexical_headers_of LTypeScript old_ts_ctrl = [] /\ lexical_headers_of LTypeScript old_ts_arrow = [mkHeader 0 0 10].
 Proof. vm_compute. split; reflexivity. Qed.
 
-(* why io_init requires pre <> []: an initialiser statement that starts with "{" would abut a function body;
-   f ( ) { } { } ;  — a header at f, and the block after the body is no part of the function *)
+(* an initialiser statement may start with "{" and abut a function body:  f ( ) { } { } ;
+   With TokenRange.overlaps on half-open ranges that merely touch (before the repair) the tool measured the
+   function over the abutting block; with the strict overlap test the scan equals the specification. *)
 Definition cex_abut : list token :=
   toks [(1,[102]);(2,[40]);(2,[41]);(2,[123]);(2,[125]);(2,[123]);(2,[125]);(2,[59])]%Z.
-Example cex_abut_facts :
-  lexical_headers_of LC cex_abut = [mkHeader 0 0 3] /\ sym_at cex_abut 4 rbrace = true /\ sym_at cex_abut 5 lbrace = true.
+Definition cex_abut_ds : list fdesc := [mkFd 0 0 3 3 4].
+
+Example abut_canonical : canonical_program_of LC cex_abut cex_abut_ds.
+Proof.
+  unfold canonical_program_of, cex_abut_ds.
+  let s := eval vm_compute in cex_abut in change cex_abut with s.
+  apply (io_func LC 0 [] [_; _; _] 0 3 _ [] _ [_; _; _] [] []);
+    [reflexivity | | reflexivity | reflexivity | constructor | reflexivity | ].
+  - apply (fh_plain LC _ [_; _]); [reflexivity | reflexivity |].
+    apply groups_one. apply (group_intro _ [] _); [reflexivity | constructor | reflexivity].
+  - apply (io_init LC _ [] _ [] _ [] _ [] []);
+      [reflexivity | reflexivity | reflexivity | reflexivity | constructor | reflexivity | constructor].
+Qed.
+
+Example abut_scan_equals_spec :
+  lexical_headers_of LC cex_abut = [mkHeader 0 0 3] /\
+  scan_file LC cex_abut = expected_all cex_abut cex_abut_ds cex_abut_ds /\
+  scan_file LCpp cex_abut = expected_all cex_abut cex_abut_ds cex_abut_ds /\
+  scan_file LJava cex_abut = expected_all cex_abut cex_abut_ds cex_abut_ds.
 Proof. vm_compute. repeat split; reflexivity. Qed.
 
 Print Assumptions cex_java_header.
